@@ -148,6 +148,15 @@ def host_tokens(x):
         toks[0].ws = True
         toks[0].wsmean = "must"
         toks = [ident("view", ctx="sel")] + toks
+    elif c in ("in-is-first", "in-not-desc", "in-has"):
+        # `:host` inside a functional pseudo-class with more after it inside the parentheses
+        toks[0].wsmean = "mustnot"
+        tail = {"in-is-first": [simple(",", ctx="sel"), delim(".", ctx="sel", ws=True), ident("a", ctx="sel", cls=True, wsmean="mustnot")],
+                "in-not-desc": [delim(".", ctx="sel", ws=True, wsmean="must"), ident("a", ctx="sel", cls=True, wsmean="mustnot")],
+                "in-has": [delim(">", ctx="sel", ws=True), delim(".", ctx="sel", ws=True), ident("a", ctx="sel", cls=True, wsmean="mustnot")]}[c]
+        fn = {"in-is-first": "is", "in-not-desc": "not", "in-has": "has"}[c]
+        pre = [delim(".", ctx="sel"), ident("b", ctx="sel", cls=True, wsmean="mustnot")] if c == "in-has" else []
+        toks = pre + [simple(":", ctx="sel", wsmean="mustnot" if pre else "free"), func(fn, ctx="sel", wsmean="mustnot")] + toks + tail + [simple(")", ctx="sel")]
     elif c == "in-is":
         toks[0].wsmean = "mustnot"
         toks = [simple(":", ctx="sel"), func("is", ctx="sel", wsmean="mustnot")] + toks + [simple(")", ctx="sel")]
@@ -326,8 +335,13 @@ def expected(rules, opts):
                 continue
             # (inside a group rule, only the rules that precede the group rule count as "other rules before")
             before = state["only_imports"]
+            before_ls = state.get("only_layer_statements", True)
             if not (x["t"] == "at" and x["name"] == "charset"):
+                if state["only_imports"]:
+                    state["only_layer_statements"] = True
                 state["only_imports"] = False
+                if not (x["t"] == "at" and x["name"] == "layer" and x["body"] is None):
+                    state["only_layer_statements"] = False
             if x["t"] == "rule":
                 for t in x["sel"]:
                     conv(t, outs[0], True)
@@ -372,8 +386,10 @@ def expected(rules, opts):
                 outs[0].append(E("{", src=x["open"]))
                 if x["body"] == "rules":
                     state["only_imports"] = before
+                    state["only_layer_statements"] = before_ls if not before else True
                     walk(x["rules"], outs, at_stack + [pre])
                     state["only_imports"] = False
+                    state["only_layer_statements"] = False
                 elif x["body"] == "decls":
                     conv_decls(x["decls"], outs[0])
                 else:
@@ -394,7 +410,9 @@ def expected(rules, opts):
             out.append(E(";", src=x["semi"]))
             return
         if not state["only_imports"]:
-            warnings.append("IllegalImportPosition")
+            # (`@layer a, b;` statements before an import are legal in CSS Cascade 5 and "other rules" in the plain
+            #  reading of the property: an import preceded by nothing else may or may not be flagged)
+            warnings.append("IllegalImportPosition?" if state.get("only_layer_statements") else "IllegalImportPosition")
         kw = x["toks"][0]
         closes = 0
         first_index = len(out)
